@@ -32,13 +32,12 @@ same object as the Arrow conversion path, and non-flat shapes are refused (``Non
 from __future__ import annotations
 
 import atexit
-import dataclasses
 import importlib.util
 import os
 import shutil
 import sys
 import tempfile
-from dataclasses import MISSING, field, make_dataclass
+from dataclasses import field, make_dataclass
 from enum import Enum
 from typing import Annotated, Any, Optional
 
@@ -70,7 +69,7 @@ BOUNDS = (
     "nested dataclass,defaults,Transient} to nesting depth %d (quick: fixed selection of 25; thorough: all, %s); "
     "instances: unbounded ints, any bool, any str of len<=%d, any enum member (3), container lengths 0..2, "
     "None in every Optional position; map keys: a top-level map of scalars/enums has two independent symbolic "
-    "keys, any other two-entry map has keys (s, s+'k') with s symbolic; depth-3 shapes: the outermost container "
+    "keys, any other map has the constant keys 'k0','k1'; depth-3 shapes: the outermost container "
     "holds at most one element" % (_DEPTH, "incl. Enum-keyed maps", _L)
 )
 OUTSIDE = (
@@ -302,8 +301,9 @@ _SCALARISH = ("int", "bool", "str", "enum")
 
 
 def _free_keys(e: tuple, level: int) -> bool:
-    """Two independent symbolic keys (top-level map of scalars / non-str keys); otherwise the second
-    key of a two-entry map is ``first + "k"`` (symbolic content, distinct by construction)."""
+    """Independent symbolic keys (top-level map of scalars/enums, or non-str keys); any other map — nested, or
+    holding containers/dataclasses — has the constant keys "k0", "k1" (key content is opaque to the conversion
+    layer; symbolic key content is claimed by the depth-1 map shapes)."""
     return e[1] != ("str",) or (level == 0 and e[2][0] in _SCALARISH)
 
 
@@ -327,8 +327,8 @@ def _need(e: tuple, acc: dict, level: int = 0) -> None:
         _need(e[1], acc, level + 1)
     elif k == "dict":
         acc["n"] += 1
-        _need(e[1], acc)
         if _free_keys(e, level):
+            _need(e[1], acc)
             _need(e[1], acc)
         _need(e[2], acc, level + 1)
         _need(e[2], acc, level + 1)
@@ -373,11 +373,12 @@ def _build(e: tuple, p: _Pool, level: int = -1, deep: bool = False) -> Any:
         n = p.take("n")
         if n == 0:
             return dict([])
-        k0 = _build(e[1], p, level + 1, deep)
+        free = _free_keys(e, level)
+        k0 = _build(e[1], p, level + 1, deep) if free else "k0"
         v0 = _build(e[2], p, level + 1, deep)
         if n == 1 or one_only:
             return dict([(k0, v0)])
-        k1 = _build(e[1], p, level + 1, deep) if _free_keys(e, level) else k0 + "k"
+        k1 = _build(e[1], p, level + 1, deep) if free else "k1"
         v1 = _build(e[2], p, level + 1, deep)
         return dict([(k0, v0), (k1, v1)])
     if k == "dc":
@@ -751,7 +752,7 @@ def _generate_source() -> str:
         out.append(
             _TEMPLATE.format(
                 q=40,
-                t=150,
+                t=300,
                 bound=f"{_describe(s['expr'])}; lens<=2, strs<={_L}",
                 name=s["name"],
                 fname="shape_" + s["name"],
